@@ -61,6 +61,11 @@ def _bb_arg(bb):
 def _impl_gridf(case):
     """a lattice asked for by its number of nodes: step = (upper - lower) / (n - 1), a float that is in general not exact"""
     bb = [(float(lo), float(hi)) for lo, hi in case["bb"]]
+    if case.get("via") == "sip":
+        # the lattice on which the SIP fit samples the transform: the same helper, without centring, shifted by the reference pixel
+        x, y = gw._make_sampling_grid(case["n"][0], tuple(bb), case["crpix"])
+        cols = [np.asarray(x) + case["crpix"][0], np.asarray(y) + case["crpix"][1]]
+        return {"counts": [len(np.unique(c)) for c in cols], "last": [float(c.max()) for c in cols], "first": [float(c.min()) for c in cols]}
     steps = tuple((hi - lo) / (n - 1) for (lo, hi), n in zip(bb, case["n"]))
     g = np.asarray(wcstools.grid_from_bounding_box(tuple(bb) if len(bb) > 1 else bb[0], step=steps if len(bb) > 1 else steps[0], center=False))
     if len(bb) == 1:
@@ -78,7 +83,7 @@ def _oracle_gridf(case, res):
             # finding D59: the stop `upper + step` of the float range lands a hair beyond the exact last node, one more node is produced
             out.append(("D59", "axis %d of box %s with %d nodes asked for (step %r): %d nodes, the last at %r, a whole step beyond the upper limit" %
                         (i, case["bb"], n, step, res["counts"][i], res["last"][i])))
-        elif res["counts"][i] != n or abs(res["last"][i] - hi) > 1e-9 * max(1.0, abs(hi)) or res["first"][i] != lo:
+        elif res["counts"][i] != n or abs(res["last"][i] - hi) > 1e-9 * max(1.0, abs(hi)) or (res["first"][i] != lo if case.get("via") != "sip" else abs(res["first"][i] - lo) > 1e-9 * max(1.0, abs(lo))):
             out.append(("gridf", "axis %d of box %s with %d nodes asked for: %d nodes from %r to %r" % (i, case["bb"], n, res["counts"][i], res["first"][i], res["last"][i])))
     return out
 
@@ -338,6 +343,14 @@ def gen(rng, tier):
         nd = rng.randint(1, 2)
         bb = [[float(rng.choice([0, 1, -3])), float(rng.choice([100, 255, 1023, 2048, 4096]))] for _i in range(nd)]
         yield {"kind": "gridf", "bb": bb, "n": [rng.choice([5, 8, 16, 24, 33]) for _i in range(nd)]}
+    for _ in range(8 if q else 300):
+        # the SIP sampling lattice on boxes with fractional limits (image edges -0.5 .. N-0.5, arbitrary quarter-pixel limits)
+        bb = []
+        for _i in range(2):
+            lo = rng.choice([-0.5, -0.5, 0.5, 10.25, 0.0, 3.75])
+            bb.append([lo, lo + rng.choice([100, 255, 1024, 2048]) + rng.choice([0.0, 0.5, 0.25])])
+        n = rng.choice([5, 8, 12, 16, 24, 33])
+        yield {"kind": "gridf", "via": "sip", "bb": bb, "n": [n, n], "crpix": [rng.choice([0.0, 12.5, 512.0]), rng.choice([0.0, 7.25, 100.0])]}
     for _ in range(220 if q else 12000):
         nd = rng.randint(1, 3)
         bb = []
